@@ -226,7 +226,7 @@ pub trait DynEngine: Sync {
     fn engine_name(&self) -> &'static str;
     #[allow(clippy::too_many_arguments)]
     fn run_range(&self, tag: &str, seed: u64, tier: Tier, offset: u64, stride: u64, runs: u64, cap: Duration, progress: &mut dyn FnMut(u64)) -> WorkerOut;
-    fn minimise_dyn(&self, sc: Value, v: Violation, budget: Duration) -> (Value, Violation, u64, usize, usize);
+    fn minimise_dyn(&self, sc: Value, v: Violation, budget: Duration, on_step: &mut dyn FnMut(&Value, &Violation, u64, usize)) -> (Value, Violation, u64, usize, usize);
     fn replay_dyn(&self, sc: &Value) -> Result<Option<Violation>, String>;
     /// the event log of one seeded run, for the determinism self-test
     fn log_run(&self, tag: &str, seed: u64, tier: Tier, index: u64) -> String;
@@ -298,10 +298,10 @@ impl<E: Engine> DynEngine for E {
         }
     }
 
-    fn minimise_dyn(&self, sc: Value, v: Violation, budget: Duration) -> (Value, Violation, u64, usize, usize) {
+    fn minimise_dyn(&self, sc: Value, v: Violation, budget: Duration, on_step: &mut dyn FnMut(&Value, &Violation, u64, usize)) -> (Value, Violation, u64, usize, usize) {
         let sc: E::Sc = serde_json::from_value(sc).expect("scenario round trip");
         let before = self.size(&sc);
-        let (m, v, steps) = minimise(self, sc, v, budget);
+        let (m, v, steps) = minimise_with(self, sc, v, budget, &mut |c, v, n| on_step(&serde_json::to_value(c).unwrap(), v, n, self.size(c)));
         let after = self.size(&m);
         (serde_json::to_value(&m).unwrap(), v, steps, before, after)
     }
@@ -583,6 +583,12 @@ pub fn run_batch(engine_key: &str, tag: &str, seed: u64, runs: u64, tier: Tier, 
 
 /// Delta-debugs a failing scenario while the same violation class persists.
 pub fn minimise<E: Engine>(e: &E, sc: E::Sc, v: Violation, budget: Duration) -> (E::Sc, Violation, u64) {
+    minimise_with(e, sc, v, budget, &mut |_, _, _| {})
+}
+
+/// `on_step` sees every accepted reduction (so that the best one so far survives a candidate
+/// that kills the process)
+pub fn minimise_with<E: Engine>(e: &E, sc: E::Sc, v: Violation, budget: Duration, on_step: &mut dyn FnMut(&E::Sc, &Violation, u64)) -> (E::Sc, Violation, u64) {
     let start = Instant::now();
     let mut cur = sc;
     let mut viol = v;
@@ -604,6 +610,7 @@ pub fn minimise<E: Engine>(e: &E, sc: E::Sc, v: Violation, budget: Duration) -> 
                     cur = pinned;
                     viol = v2;
                     steps += 1;
+                    on_step(&cur, &viol, steps);
                     continue 'outer;
                 }
             }
